@@ -175,14 +175,15 @@ pub fn main(args: &[String]) {
         if amod::validate(wasm, feats).is_err() { continue; }
         // variants: unchanged; GC before emitting; marker instructions inserted at random places through the builder API
         let big = name.starts_with("many-functions-");
-        let variants: Vec<u8> = if big { vec![0] } else { vec![0, 1, 2, 3, 4, 5] };   // 4 = unchanged, but with generate_dwarf(true) in place of preserve_code_transform(true); 5 = unchanged, parsed with an identity on_instr_loc callback
+        let variants: Vec<u8> = if big { vec![0] } else { vec![0, 1, 2, 3, 4, 5, 6] };   // 6 = the module is emitted once, THEN markers are inserted, and the second emit is the one observed   // 4 = unchanged, but with generate_dwarf(true) in place of preserve_code_transform(true); 5 = unchanged, parsed with an identity on_instr_loc callback
         for variant in variants {
             let names = r.chance(1, 2);
             let seed_edit = r.below(1 << 30);
             let edits: std::cell::RefCell<Vec<(usize, usize, usize)>> = Default::default();
             let o = match catch(|| observe_ct_cfg2(wasm, names, variant == 4, variant == 5, &|m: &mut Module| {
                     if variant == 1 { passes::gc::run(m); }
-                    if variant == 2 { let mut rr = Rng::new(seed_edit as u64); let ids: Vec<FunctionId> = m.funcs.iter_local().map(|(id, _)| id).collect();
+                    if variant == 6 { let _ = m.emit_wasm(); }
+                    if variant == 2 || variant == 6 { let mut rr = Rng::new(seed_edit as u64); let ids: Vec<FunctionId> = m.funcs.iter_local().map(|(id, _)| id).collect();
                         for fid in ids { let lf = m.funcs.get_mut(fid).kind.unwrap_local_mut(); let seqs = irdump::seq_ids(lf); let mut keys: Vec<_> = seqs.keys().cloned().collect(); keys.sort();
                             for _ in 0..(1 + rr.usize(3)) { let sk = *rr.pick(&keys); let sid = seqs[&sk]; let len = lf.block(sid).instrs.len(); let pos = rr.usize(len + 1);
                                 let mut b = lf.builder_mut().instr_seq(sid); b.instr_at(pos, ir::Const { value: ir::Value::I32(MARKER) }); b.instr_at(pos + 1, ir::Drop {});
@@ -192,9 +193,9 @@ pub fn main(args: &[String]) {
                         let f = b.finish(vec![], &mut m.funcs); m.exports.add("added-through-the-api", f); }
                 })) { Some(Ok(o)) => o, Some(Err(_)) => continue,
                 None => { viol.push(Json::obj(vec![("class", Json::s("emit-panics-with-code-transform")), ("props", Json::s("C11 C02")), ("what", Json::s(format!("{}: parse/emit panics with preserve_code_transform (variant {})", name, variant))), ("input", Json::s(crate::c03::hex(wasm)))])); continue; } };
-            if variant == 2 && amod::validate(&o.out, feats).is_err() { continue; }
+            if (variant == 2 || variant == 6) && amod::validate(&o.out, feats).is_err() { continue; }
             if let Err(e) = amod::validate(&o.out, feats) { if true { viol.push(Json::obj(vec![("class", Json::s("output-invalid-with-code-transform")), ("props", Json::s("C02")), ("what", Json::s(format!("{}: output does not validate (variant {}): {}", name, variant, e))), ("input", Json::s(crate::c03::hex(wasm)))])); } }   // a marker landed in a place where it breaks typing (e.g. after a terminator of a typed block): not a well-formed edit
-            let vname = format!("{}{}", name, ["", " (after gc)", " (markers inserted)", " (a function added through the API)", " (with generate_dwarf)", " (with an identity on_instr_loc callback)"][variant as usize]);
+            let vname = format!("{}{}", name, ["", " (after gc)", " (markers inserted)", " (a function added through the API)", " (with generate_dwarf)", " (with an identity on_instr_loc callback)", " (emitted once, then markers inserted, emitted again)"][variant as usize]);
             oracle(&vname, wasm, &o, &mut viol);
             if variant == 1 { n_gc += 1; } if variant == 2 { n_edit += 1; }
             n_pairs += o.ct.pairs.len() as u64; n_funcs += o.ct.ranges.len() as u64;
